@@ -39,37 +39,39 @@ def _exercise(c, target, els):
     return ok and isinstance(f2, list)
 
 
-def any_selector_any_target_ok(si: int, di: int) -> bool:
+def any_selector_any_target_ok(si: int) -> bool:
     """
     pre: 0 <= si < NSEL
-    pre: 0 <= di < len(DOCS)
     post: _
     """
-    # every entry point, with the document and every element as call target; concrete documents, so the body runs
-    # natively once the solver has fixed the two indices (bounded enumeration steered by the solver)
-    si, di = concrete(si), concrete(di)
-    with notrace():
-        c = COMPILED_ALL[SEL[si]]
-        els = ELS[di]
-        ok = _exercise(c, DOCS[di], els[:6])
-        for e in els:
-            ok = ok and _exercise(c, e, [e])
+    # every entry point, with the document and every element of every document as call target; concrete documents, so the
+    # body runs natively once the solver has fixed the selector index (bounded enumeration steered by the solver)
+    si = concrete(si)
+    ok = True
+    for di in range(len(DOCS)):
+        with notrace():
+            c = COMPILED_ALL[SEL[si]]
+            els = ELS[di]
+            ok = ok and _exercise(c, DOCS[di], els[:6])
+            for e in els:
+                ok = ok and _exercise(c, e, [e])
     return ret(ok)
 
 
-def detached_ok(si: int, di: int) -> bool:
+def detached_ok(si: int) -> bool:
     """
     pre: 0 <= si < NSEL
-    pre: 0 <= di < len(DETACHED)
     post: _
     """
-    si, di = concrete(si), concrete(di)
-    with notrace():
-        c = COMPILED_ALL[SEL[si]]
-        t = DETACHED[di]
-        ok = _exercise(c, t, [t])
-        for e in tg.elements(t):
-            ok = ok and _exercise(c, e, [e])
+    si = concrete(si)
+    ok = True
+    for di in range(len(DETACHED)):
+        with notrace():
+            c = COMPILED_ALL[SEL[si]]
+            t = DETACHED[di]
+            ok = ok and _exercise(c, t, [t])
+            for e in tg.elements(t):
+                ok = ok and _exercise(c, e, [e])
     return ret(ok)
 
 
@@ -137,23 +139,26 @@ P1 = tg.by_id(tg.doc('plain_hp'), 'p1')
 XA = tg.by_id(tg.doc('xml'), 'xa')
 
 
-def odd_values_ok(si: int, oi: int, ai: int, xml: bool) -> bool:
+def odd_values_ok(si: int, ai: int) -> bool:
     """
     pre: 0 <= si < len(ODD_SELECTORS)
-    pre: 0 <= oi < len(ODD)
     pre: 0 <= ai <= 2
     post: _
     """
     # None, numbers, bytes, nested lists ... stored through the bs4 API in attributes that only attribute, class and
     # id selectors read (invalid UTF-8 bytes excluded from the claim: see check file)
-    si, oi, ai, xml = concrete(si), concrete(oi), concrete(ai), concrete(xml)
+    si, ai = concrete(si), concrete(ai)
+    ok = True
     with notrace():
-        el = XA if xml else P1
-        docu = tg.doc('xml') if xml else tg.doc('plain_hp')
-        with tg.inject([(el, ('t', 'class', 'id')[ai], ODD[oi])]):
-            r = ODD_SELECTORS[si].select(docu)
-            m = ODD_SELECTORS[si].match(el)
-    return ret(isinstance(r, list) and isinstance(m, bool))
+        for xml in (False, True):
+            el = XA if xml else P1
+            docu = tg.doc('xml') if xml else tg.doc('plain_hp')
+            for oi in range(len(ODD)):
+                with tg.inject([(el, ('t', 'class', 'id')[ai], ODD[oi])]):
+                    r = ODD_SELECTORS[si].select(docu)
+                    m = ODD_SELECTORS[si].match(el)
+                ok = ok and isinstance(r, list) and isinstance(m, bool)
+    return ret(ok)
 
 
 def non_tag_target_ok(si: int, k: int) -> bool:
@@ -224,20 +229,20 @@ def _sur_doc(k, v):
     return d
 
 
-def surrogate_ok(si: int, vi: int, k: int) -> bool:
+def surrogate_ok(si: int) -> bool:
     """
     pre: 0 <= si < NSEL
-    pre: 0 <= vi < len(SUR)
-    pre: 0 <= k <= 2
     post: _
     """
-    si, vi, k = concrete(si), concrete(vi), concrete(k)
+    si = concrete(si)
+    ok = True
     with notrace():
-        d = _sur_doc(k, SUR[vi])
         c = COMPILED_ALL[SEL[si]]
-        r = c.select(d)
-        ok = isinstance(r, list)
-        for e in tg.elements(d):
-            ok = ok and isinstance(c.match(e), bool) and isinstance(c.filter(e), list)
-            c.closest(e)
+        for vi in range(len(SUR)):
+            for k in range(3):
+                d = _sur_doc(k, SUR[vi])
+                ok = ok and isinstance(c.select(d), list)
+                for e in tg.elements(d):
+                    ok = ok and isinstance(c.match(e), bool) and isinstance(c.filter(e), list)
+                    c.closest(e)
     return ret(ok)
